@@ -56,6 +56,36 @@ Theorem resync_after_overrun_copying :
 Proof. intros P sep keep_end dec limit Hne u rest chunks fuel. exact (resync_copying_l sep keep_end dec Hne limit u rest chunks fuel). Qed.
 Print Assumptions resync_after_overrun_copying.
 
+(* Resynchronisation, buffer-filling path (BufferedStreamDataConsumer over _buffered_readuntil, the code repaired by the
+   first fix: commit): same statement, for every sequence of recv_into fills (each non-empty and fitting the exported view)
+   and every size hint; the rest must be inside the buffered band (payload + separator < limit). The junk contains a limit
+   error whenever the skipped frame cannot fit the buffer. False of the code before the fix (F1). *)
+Theorem resync_after_overrun_buffered :
+  forall (P : Type) (sep : bytes) (keep_end : bool) (dec : decoder P) (limit sizehint : nat),
+    sep <> [] -> length sep + 1 <= limit ->
+    forall (u rest : bytes) (fills : list bytes) (fuel : nat),
+      find0 sep (u ++ sep) = Some (length u) ->
+      safe sep (limit - 1 - length sep) rest ->
+      concat fills = u ++ sep ++ rest -> length (concat fills) < fuel ->
+      fills_fit (bru_framer sep limit keep_end dec) sizehint fuel (bcinit _) fills ->
+      exists c' junk,
+        bcfills (bru_framer sep limit keep_end dec) sizehint fuel (bcinit _) fills =
+          (c', junk ++ fst (spec_events sep keep_end dec rest)) /\
+        junk <> [] /\ (limit < length u + length sep -> In (RErr ELimit) junk).
+Proof.
+  intros P sep keep_end dec limit sizehint Hne Hl u rest fills fuel.
+  exact (resync_buffered_l sep keep_end dec Hne limit sizehint u rest fills fuel Hl).
+Qed.
+Print Assumptions resync_after_overrun_buffered.
+
+(* the witness of F1, on the repaired model: limit 10, CRLF, "abcdefgh\r" then "\nhello\r\n" *)
+Example resync_buffered_f1_witness :
+  let dec := fun b : bytes => Some b in
+  snd (bcfills (bru_framer [13; 10]%N 10 false dec) 64 60 (bcinit _)
+         [[97; 98; 99; 100; 101; 102; 103; 104; 13]; [10; 104; 101; 108; 108; 111; 13; 10]]%N)
+  = [RErr ELimit; RPkt []; RPkt [104; 101; 108; 108; 111]%N].
+Proof. vm_compute. reflexivity. Qed.
+
 Example resync_example :
   let dec := fun b : bytes => Some b in
   cdeliver (ru_framer [13; 10]%N 4 false dec) 40 (cinit _) [[1; 2; 3; 4; 5; 13]; [10; 7; 13]; [10]]%N
